@@ -832,7 +832,7 @@ class Engine:
         m = getattr(self, "e_" + type(node).__name__, None)
         if m is None:
             raise Unsupported(f"expression {type(node).__name__}", node)
-        if type(node).__name__ in ("List", "Tuple", "Dict", "Call", "ListComp", "Set"):
+        if type(node).__name__ in ("List", "Tuple", "Dict", "Call", "ListComp", "Set", "SetComp"):
             return m(node, st, hint)
         return m(node, st)
 
@@ -1433,6 +1433,18 @@ class Engine:
         else:
             self.do_raise(st, exc, line, cond)
 
+    def _spec_arrays(self) -> list:
+        """Boolean spec arrays (terms `spec:<name>(args)`) introduced by the axioms of the contract under verification."""
+        if getattr(self, "_spec_arrays_for", None) is not self.pre_pc:
+            found: dict = {}
+            for h in self.pre_pc:
+                for x in _uninterpreted_apps(h):
+                    if x.num_args() > 0 and x.decl().name().startswith("spec:") and isinstance(x.sort(), z3.ArraySortRef) \
+                            and x.sort().range() == z3.BoolSort():
+                        found[x.get_id()] = x
+            self._spec_arrays_cache, self._spec_arrays_for = list(found.values()), self.pre_pc
+        return self._spec_arrays_cache
+
     def comp_to_seq(self, node, st: State, hint: Ty | None = None) -> Val:
         n, ic, e, cond = self.comp_parts(node, st)
         if isinstance(e.ty, TTuple):
@@ -1488,12 +1500,94 @@ class Engine:
             st.assume(z3.ForAll([t_], z3.Implies(z3.And(0 <= t_, t_ < ty.len(r.t)),
                                                  z3.And(0 <= src_of(t_), src_of(t_) < n, z3.Select(C, src_of(t_)),
                                                         f_cnt(C, src_of(t_)) == t_)), patterns=[rt, src_of(t_)]))
+            # the contract may describe the same filter by a spec array of its own (S.defarray): lemma L9 for each
+            for D in self._spec_arrays():
+                if not D.eq(C):
+                    from .spec import l9_instance
+                    st.assume(l9_instance(C, D))
             # the result is empty iff nothing passes the filter (ground instance at t = 0, and the converse)
             st.assume(z3.Implies(ty.len(r.t) > 0, z3.And(0 <= src_of(0), src_of(0) < n, z3.Select(C, src_of(0)))))
             st.assume(z3.Implies(ty.len(r.t) == 0, z3.ForAll([j], z3.Implies(z3.And(0 <= j, j < n), z3.Not(cj)),
                                                              patterns=[cj])))
             self.last_filter = C
         st.pc += ty.wf(r.t)
+        return r
+
+    def e_SetComp(self, node, st, hint=None):
+        """{E for x in XS}  and  {E for x in XS for y in YS(x)}  (no filters): k is a member iff some (pair of) source
+        position(s) yields it.  Values created while evaluating the iterables / the element (results of callee
+        contracts) are lifted to functions of the bound positions, and what is assumed about them is quantified."""
+        gens = node.generators
+        if not 1 <= len(gens) <= 2 or any(g.ifs or g.is_async for g in gens):
+            raise Unsupported("set comprehension form", node)
+        from .types import _counter as _cnt
+        inner = st.copy()
+        inner.env = dict(st.env)
+        sink: list = []
+        inner.qctx = st.qctx + [sink]
+        idx, rngs = [], []
+        mark = next(_cnt)
+        level_of: list[int] = []  # per assumption made inside: how many generator variables were bound at that time
+        marks: list[int] = []  # symbol counter when generator variable #l was bound: later symbols depend on it
+        for g in gens:
+            n_, elem_ = self.eval_iter(g.iter, inner)
+            level_of += [len(idx)] * (len(inner.pc) - len(st.pc) - len(level_of))
+            marks.append(next(_cnt))
+            ic = z3.Int(fresh_name("si"))
+            idx.append(ic)
+            rngs.append(z3.And(0 <= ic, ic < n_))
+            self.bind(g.target, elem_(ic), inner, node)
+        e = self.eval(node.elt, inner)
+        if sink:
+            raise Unsupported("set comprehension whose body may raise", node)
+        extra = inner.pc[len(st.pc):]
+        level_of += [len(idx)] * (len(extra) - len(level_of))
+        terms = list(extra) + [e.t] + rngs
+        fresh_consts: dict[str, Any] = {}
+        for t_ in terms:
+            for x_ in _uninterpreted_apps(t_):
+                nm = x_.decl().name()
+                if "!" not in nm or any(nm == str(i_) for i_ in idx):
+                    continue
+                try:
+                    k_ = int(nm.rsplit("!", 1)[1])
+                except ValueError:
+                    continue
+                if k_ > mark:
+                    if x_.num_args() > 0:
+                        raise Unsupported(f"fresh function {nm} created inside a comprehension body", node)
+                    fresh_consts[nm] = x_
+        def depth(nm):  # number of generator variables bound before the symbol was created
+            k_ = int(nm.rsplit("!", 1)[1])
+            return sum(1 for m_ in marks if k_ > m_)
+        subs = []
+        for nm, c_ in fresh_consts.items():
+            dvars = idx[:depth(nm)]
+            subs.append((c_, z3.Function(fresh_name("sk:" + nm.split("!")[0]), *[z3.IntSort()] * len(dvars), c_.sort())(*dvars)
+                         if dvars else c_))
+        lift = (lambda t_: z3.substitute(t_, *subs)) if subs else (lambda t_: t_)
+        extra = [lift(h) for h in extra]
+        rngs = [lift(r_) for r_ in rngs]
+        et = lift(e.t)
+        js = [z3.Int(fresh_name("sj")) for _ in idx]
+        ren = list(zip(idx, js))
+        in_range = z3.substitute(z3.And(*rngs), *ren)
+        for h, lv in zip(extra, level_of):
+            # an assumption made while only the first `lv` variables were bound holds for every such prefix
+            if lv == 0:
+                st.assume(h)
+                continue
+            pre_range = z3.substitute(z3.And(*rngs[:lv]), *ren)
+            st.assume(z3.ForAll(js[:lv], z3.Implies(pre_range, z3.substitute(h, *ren))))
+        ty = TSet(e.ty)
+        r = ty.fresh("setcomp")
+        k = z3.Const(fresh_name("sk"), e.ty.sort())
+        ej = z3.substitute(et, *ren)
+        st.assume(z3.ForAll([k], z3.Select(ty.mem(r.t), k) == z3.Exists(js, z3.And(in_range, ej == k)),
+                            patterns=[z3.Select(ty.mem(r.t), k)]))
+        st.assume(z3.ForAll(js, z3.Implies(in_range, z3.Select(ty.mem(r.t), ej))))
+        st.assume(ty.card(r.t) >= 0)
+        st.assume((ty.card(r.t) == 0) == z3.Not(z3.Exists(js, in_range)))
         return r
 
     def e_ListComp(self, node, st, hint=None):
